@@ -1,4 +1,5 @@
 import QVerif.Model.Pipeline
+import QVerif.Lemmas.PipelineStates
 
 /-!
 # C03 — circuit evaluators return the true objective through every primitive wrapper
@@ -177,6 +178,80 @@ theorem mix_layout_invariance (o : PauliOp) (μ : Mixture) (final : List Nat) (n
   intro e he
   simp only [Function.comp]
   rw [op_layout_invariance o e.2 final n m hl hp (hb e he)]
+
+/-! ## Layout invariance on pure states (superpositions, arbitrary Pauli observables) -/
+
+theorem phase_layout (ps : List Pauli) (b : Bits) (final : List Nat) (n m : Nat) (hl : LayoutOk final n m)
+    (hp : ps.length = n) (hb : b.length = n) : phase (applyLayout ps final m) (place b final m) = phase ps b := by
+  unfold applyLayout place
+  rw [scatter_phase ps b final _ _ (by rw [hp, hl.len]) (by rw [hb, hl.len]) (by simp) hl.nodup
+    (fun k hk => by simp [hl.lt k hk]), phase_replicate]
+  omega
+
+theorem flip_layout (ps : List Pauli) (b : Bits) (final : List Nat) (n m : Nat) (hl : LayoutOk final n m)
+    (hp : ps.length = n) (hb : b.length = n) :
+    flip (applyLayout ps final m) (place b final m) = place (flip ps b) final m := by
+  unfold applyLayout place
+  rw [scatter_flip ps b final _ _ (by rw [hp, hl.len]) (by rw [hb, hl.len]) (by simp) hl.nodup
+    (fun k hk => by simp [hl.lt k hk]), flip_replicate]
+
+/-- the amplitude of a placed basis state in the placed state is the amplitude of the original one -/
+theorem amp_place (ψ : State) (final : List Nat) (n m : Nat) (hl : LayoutOk final n m) (hψ : ∀ e ∈ ψ, e.1.length = n)
+    (b : Bits) (hb : b.length = n) : amp (statePlace ψ final m) (place b final m) = amp ψ b := by
+  unfold amp statePlace
+  congr 1
+  rw [List.filter_map, List.map_map]
+  have : ψ.filter ((fun e : Bits × GRat => decide (e.1 = place b final m)) ∘ fun e => (place e.1 final m, e.2)) =
+      ψ.filter (fun e => decide (e.1 = b)) := by
+    apply List.filter_congr
+    intro e he
+    simp only [Function.comp]
+    by_cases h : e.1 = b
+    · simp [h]
+    · have : place e.1 final m ≠ place b final m := fun hh => h (place_injective final n m hl e.1 b (hψ e he) hb hh)
+      simp [h, this]
+  rw [this]
+  simp [Function.comp]
+
+/-- **Layout invariance for every pure state and every Pauli string**: ⟨ψ'| P' |ψ'⟩ = ⟨ψ| P |ψ⟩ where `P'` is `P`
+re-laid-out with the final index layout and `ψ'` is `ψ` on the physical qubits (ancillas in `|0⟩`). -/
+theorem expval_layout_invariance (ps : List Pauli) (ψ : State) (final : List Nat) (n m : Nat) (hl : LayoutOk final n m)
+    (hp : ps.length = n) (hψ : ∀ e ∈ ψ, e.1.length = n) :
+    expval (applyLayout ps final m) (statePlace ψ final m) = expval ps ψ := by
+  unfold expval
+  congr 1
+  unfold statePlace
+  rw [List.map_map]
+  apply List.map_congr_left
+  intro e he
+  simp only [Function.comp]
+  rw [phase_layout ps e.1 final n m hl hp (hψ e he), flip_layout ps e.1 final n m hl hp (hψ e he)]
+  have := amp_place ψ final n m hl hψ (flip ps e.1) (by rw [flip_length]; exact hψ e he)
+  unfold statePlace at this
+  rw [this]
+
+/-- … and for every `SparsePauliOp` -/
+theorem opExpval_layout_invariance (o : PauliOp) (ψ : State) (final : List Nat) (n m : Nat) (hl : LayoutOk final n m)
+    (hp : ∀ t ∈ o, t.2.length = n) (hψ : ∀ e ∈ ψ, e.1.length = n) :
+    opExpval (opApplyLayout o final m) (statePlace ψ final m) = opExpval o ψ := by
+  unfold opExpval opApplyLayout
+  rw [List.map_map]
+  congr 1
+  apply List.map_congr_left
+  intro t ht
+  simp only [Function.comp]
+  rw [expval_layout_invariance t.2 ψ final n m hl (hp t ht) hψ]
+
+/-- on a basis state `expval` is the classical value of the first part -/
+example : expval [.Z, .I] [([true, false], ⟨1, 0⟩)] = ⟨-1, 0⟩ := by decide +kernel
+
+-- the (unnormalised) Bell state |00⟩ + |11⟩: ⟨XX⟩ = 2, ⟨YY⟩ = −2, ⟨ZZ⟩ = 2, ⟨ZI⟩ = 0 — before and after a routed layout
+def bell : State := [([false, false], ⟨1, 0⟩), ([true, true], ⟨1, 0⟩)]
+example : expval [.X, .X] bell = ⟨2, 0⟩ ∧ expval [.Y, .Y] bell = ⟨-2, 0⟩ ∧ expval [.Z, .Z] bell = ⟨2, 0⟩ ∧ expval [.Z, .I] bell = ⟨0, 0⟩ := by
+  decide +kernel
+example : expval (applyLayout [.Y, .Y] [2, 1] 3) (statePlace bell [2, 1] 3) = ⟨-2, 0⟩ := by decide +kernel
+-- |0⟩ + i|1⟩ : ⟨Y⟩ = 2
+example : expval [.Y] [([false], ⟨1, 0⟩), ([true], ⟨0, 1⟩)] = ⟨2, 0⟩ := by decide +kernel
 
 /-! ## What goes wrong otherwise (kernel-checked witnesses)
 
